@@ -141,6 +141,23 @@ def check(chk: Check) -> None:
                 lineno=fi_.node.lineno, col_offset=0, end_lineno=getattr(fi_.node, 'end_lineno', fi_.node.lineno), end_col_offset=0), cls=fi_.cls)).run():
             if p.normal:
                 scan(p.outcome[1])
+                # the argument object itself inside the result (ValueOp(value), [value], (value, 1)): the cache then hands out
+                # the object that an earlier, merely equal argument was wrapped in - Decimal('1.0') for a later Decimal('1')
+                def holds(t):
+                    t = freeze(t)
+                    if t in params:
+                        return True
+                    if isinstance(t, tuple) and t[:1] == ('new',) and len(t) > 2:
+                        return any(holds(fv_) for _fn, fv_ in t[2])
+                    if isinstance(t, tuple) and t[:1] in (('tuple',), ('list',), ('dict',), ('set',)):
+                        return any(holds(x) for x in t[1:])
+                    if isinstance(t, tuple) and t and isinstance(t[0], str) and t[0] not in ('call', 'cmp', 'not', 'binop', 'unop', 'pcall', 'attr', 'sub', 'const', 'ref'):
+                        return False
+                    if isinstance(t, tuple) and (not t or not isinstance(t[0], str)):
+                        return any(holds(x) for x in t)
+                    return False
+                if holds(p.outcome[1]):
+                    textual.append('the result holds the argument object itself: %s' % show(p.outcome[1])[:80])
             for e in p.events:
                 if e.kind == 'call':
                     scan(tuple(freeze(e.args)))
